@@ -22,8 +22,9 @@ def regen_all(verbose=True) -> bool:
         except Exception as e:  # noqa
             ok = False
             print(f"REGEN FAILED {name}: {e}")
-            if path.exists():
-                path.unlink()
+            for ext in (".v", ".vo", ".vos", ".vok", ".glob"):
+                if path.with_suffix(ext).exists():
+                    path.with_suffix(ext).unlink()
     return ok
 
 
